@@ -94,6 +94,9 @@ Lemma sort_spec : forall s E o n perm, repr s E o ->
         /\ (x = Done -> todo = [] /\ In n (keys (fields o)) /\ argsort_ok (bdata (E n)) perm = true)
         /\ (todo = fnl o \/ (In n (keys (fields o)) /\ argsort_ok (bdata (E n)) perm = true))
         /\ (x = Done -> forall k, In k (fnl o) -> exists r, g_sort perm k (E k) = Ok r)
+        /\ (forall k, In k (fnl o) -> ~ In k todo -> exists r, g_sort perm k (E k) = Ok r)
+        /\ (x = Done \/ (exists k e, In k (fnl o) /\ g_sort perm k (E k) = Err e /\ x = Raised e)
+            \/ (todo = fnl o /\ s' = s /\ o' = o /\ (assoc n (fields o) = None \/ argsort_ok (bdata (E n)) perm = false)))
   end.
 Proof.
   intros s E o n perm R; unfold sort_by_field.
@@ -103,11 +106,13 @@ Proof.
     eapply repr_ext; [exact R|]. intros k Hk; unfold Emix. destruct (mem k (fnl o)); reflexivity. }
   destruct Triv as (e0 & t0 & T1 & T2 & T3 & T4 & T5).
   destruct (assoc n (fields o)) as [l|] eqn:A.
-  2:{ exists e0, t0; splits; auto; intros; congruence. }
+  2:{ exists e0, t0; splits; auto; try (intros; congruence); try (intros k Hk Hn; subst t0; contradiction);
+      try solve [right; right; splits; auto]. }
   pose proof (r_cols _ _ _ R _ _ (assoc_In _ _ _ A)) as C; rewrite C.
   pose proof (assoc_keys _ _ _ A) as Hin.
   destruct (argsort_ok (bdata (E n)) perm) eqn:AO.
-  2:{ exists e0, t0; splits; auto; intros; congruence. }
+  2:{ exists e0, t0; splits; auto; try (intros; congruence); try (intros k Hk Hn; subst t0; contradiction);
+      try solve [right; right; splits; auto]. }
   pose proof (map_loop (g_sort perm) (sort_one perm) s (fnl o)) as ML.
   assert (Feq : forall fname ext o1 l1 b, In fname (fnl o) -> assoc fname (fields o1) = Some l1 ->
      rd (s ++ ext) l1 = Some b -> sort_one perm fname ((s ++ ext, o1) : mstate) =
@@ -123,8 +128,9 @@ Proof.
   specialize (ML NDf Subf).
   unfold mstate, store in *.
   destruct (loop (sort_one perm) (fnl o) (s, o)) as [[s' o'] x].
-  destruct ML as (ext & todo & M1 & M2 & M3 & M4 & M5 & M6 & M7 & M8).
+  destruct ML as (ext & todo & M1 & M2 & M3 & M4 & M5 & M6 & M7 & M8 & M9).
   exists ext, todo; splits; auto.
+  destruct M7 as [M7|M7]; [left; assumption | right; left; assumption].
 Qed.
 
 Lemma sort_inv : forall s o n perm, obj_inv s o ->
@@ -134,7 +140,7 @@ Lemma sort_inv : forall s o n perm, obj_inv s o ->
 Proof.
   intros s o n perm (E & R & L). pose proof (sort_spec s E o n perm R) as S.
   destruct (sort_by_field s o n perm) as [[s' o'] x].
-  destruct S as (ext & todo & S1 & S2 & S3 & S4 & S5 & S6 & S7).
+  destruct S as (ext & todo & S1 & S2 & S3 & S4 & S5 & S6 & S7 & _).
   split; [assumption|]. eexists; split; [exact S2|].
   destruct S6 as [->|[Hin AO]].
   - destruct L as [L0 L1]; destruct S4 as (Q1 & Q2 & Q3 & Q4). split; [lia|].
@@ -180,7 +186,7 @@ Proof.
   specialize (ML NDf Subf).
   unfold mstate, store in *.
   destruct (loop (convert_one conv exc) (fnl o) (s, o)) as [[s' o'] x].
-  destruct ML as (ext & todo & M1 & M2 & M3 & M4 & M5 & M6 & M7 & M8).
+  destruct ML as (ext & todo & M1 & M2 & M3 & M4 & M5 & M6 & M7 & M8 & M9).
   exists ext, todo; splits; auto.
 Qed.
 
@@ -277,11 +283,11 @@ Lemma append_spec : forall s E o Ea a, repr s E o -> repr s Ea a ->
         /\ repr s' (fun n => np_append (E n) (Ea n)) o'
         /\ keys (fields o') = keys (fields o) /\ olen o' = olen o + olen a /\ oidx o' = None
         /\ (forall n, In n (keys (fields o)) -> In n (keys (fields a)))
-  | ((s', o'), _) => s' = s /\ o' = o
+  | ((s', o'), _) => s' = s /\ o' = o /\ forallb (has a) (fnl o) = false
   end.
 Proof.
   intros s E o Ea a R Ra; unfold append.
-  destruct (forallb (has a) (fnl o)) eqn:FA; [|split; reflexivity].
+  destruct (forallb (has a) (fnl o)) eqn:FA; [|splits; reflexivity].
   assert (Hsub : forall n, In n (keys (fields o)) -> In n (keys (fields a))).
   { intros n Hn; apply (repr_has _ _ _ _ Ra). eapply forallb_In; [exact FA|]. rewrite (r_fnl _ _ _ R); assumption. }
   pose proof (map_loop (g_app Ea) (append_one a) s (fnl o)) as ML.
@@ -302,7 +308,7 @@ Proof.
   specialize (ML NDf Subf).
   unfold mstate, store in *.
   destruct (loop (append_one a) (fnl o) (s, o)) as [[s' o'] x].
-  destruct ML as (ext & todo & M1 & M2 & M3 & M4 & M5 & M6 & M7 & M8).
+  destruct ML as (ext & todo & M1 & M2 & M3 & M4 & M5 & M6 & M7 & M8 & M9).
   destruct x.
   - specialize (M5 eq_refl); subst todo. destruct M4 as (Q1 & Q2 & Q3 & Q4).
     exists ext; splits; auto.
